@@ -3,12 +3,20 @@
     upload filled.  [H] is any chunk hash with outputs of the reference length;
     the only hypothesis about it is the decidable [NoCollision] among the chunks
     this very upload wrote (otherwise an explicit collision H p = H q, p <> q,
-    exists among them).  Encrypted uploads are not modelled (C08). *)
+    exists among them).
+
+    Encrypted uploads: [Pipe.pupload] is the same feeder and hash-trie writer
+    with the chunk stage as a parameter ([PipePlain.pupload_plain]: with the plain
+    stage it IS C02's [upload]); [enc_stage] is EncryptChunk (C08/Model.v) with the
+    n-th random key and padding as oracles, then hash and Put; the joiner reads
+    through [get_dec], the decrypting store of C08.  Theorems quantify over all
+    key and padding oracles and over both hashes. *)
 From Coq Require Import List NArith ZArith Bool Lia.
 Import ListNotations.
 Require Import Aurora.Consts Aurora.C02.Model Aurora.C02.Spec Aurora.C07.Model Aurora.C07.Slices Aurora.C07.Proofs Aurora.C07.Main.
 Require Import Aurora.C01.Model Aurora.C01.Proofs Aurora.C01.Main.
-Require Aurora.C02.Main.
+Require Import Aurora.C02.Proofs Aurora.C01.Pipe Aurora.C01.EncStore Aurora.C01.EncMain.
+Require Aurora.C02.Main Aurora.C08.Model.
 Local Open Scope Z_scope.
 
 Lemma consts_ok_C01 : consts_ok_C01_b = true.
@@ -65,6 +73,65 @@ Theorem C01_at_source_constants :
 Proof. exact (read_back_at_source_constants consts_ok_C01). Qed.
 Print Assumptions C01_at_source_constants.
 
+Lemma consts_ok_C01_enc : consts_ok_C01_enc_b = true.
+Proof. vm_compute. reflexivity. Qed.
+
+(** plain upload, opened the way joiner.New does it — through the decrypting store *)
+Theorem C01_read_back_plain_through_decrypting_store :
+  forall (H Hk : bytes -> bytes) (chunk refsize : N) (cs b hs : nat),
+  (0 < hs)%nat -> (2 <= b)%nat -> Z.of_nat b = Z.of_nat cs / Z.of_nat hs ->
+  (forall x, length (H x) = hs) ->
+  forall segs : list bytes,
+  (len (concat segs) + Z.of_nat cs + 8 < 2 ^ 63) ->
+  (length (chunks_of cs (concat segs)) <= b ^ 7)%nat ->
+  exists u, upload H cs b hs segs = Ok u /\
+    (NoCollision H (u_log u) ->
+     let get := get_dec Hk chunk refsize hs (store_of_log H (u_log u)) in
+     exists j, joiner_new get (u_root u) = Some j /\ j_off j = 0
+               /\ stored get (Z.of_nat cs) (Z.of_nat hs) j (concat segs)).
+Proof. exact read_back_plain_dec. Qed.
+Print Assumptions C01_read_back_plain_through_decrypting_store.
+
+(** encrypted upload: for every chunk hash [Hc], keystream hash [Hk] (digest at least as
+    long as the key), every key oracle and padding oracle, every chunk size = refsize *
+    branching, every content and write split: the upload succeeds, every Write returns its
+    length, and opening the returned (address ++ key) reference through the decrypting
+    store yields a joiner at position 0 on a well-formed stored tree for exactly the
+    written bytes (so all C07 theorems apply) — unless two stored chunks collide under Hc *)
+Theorem C01_read_back_encrypted :
+  forall (Hc Hk : bytes -> bytes) (chunk branching refsize : N) (hs kl : nat)
+         (keys : nat -> bytes) (pads : nat -> nat -> N),
+  (chunk = refsize * branching)%N -> (2 <= branching)%N -> (2 * chunk <= C08.Model.W64)%N ->
+  N.to_nat refsize = (hs + kl)%nat -> (0 < hs)%nat -> (0 < kl)%nat ->
+  (forall n, length (keys n) = kl) -> (forall x, (kl <= length (Hk x))%nat) -> (forall x, length (Hc x) = hs) ->
+  forall segs : list bytes,
+  (len (concat segs) + Z.of_N chunk + 8 < 2 ^ 63) ->
+  (length (chunks_of (N.to_nat chunk) (concat segs)) <= N.to_nat branching ^ 7)%nat ->
+  exists u, pupload (enc_stage Hc Hk chunk refsize keys pads) (N.to_nat chunk) (N.to_nat branching) (N.to_nat refsize) segs = Ok u
+    /\ u_rets u = seg_lens segs /\
+    (NoCollision Hc (u_log u) ->
+     let get := get_dec Hk chunk refsize hs (store_of_log Hc (u_log u)) in
+     exists j, joiner_new get (u_root u) = Some j /\ j_off j = 0
+               /\ stored get (Z.of_N chunk) (Z.of_N refsize) j (concat segs)).
+Proof. exact read_back_encrypted. Qed.
+Print Assumptions C01_read_back_encrypted.
+
+(** at the constants of the Go source: 256 KiB chunks, 64-byte references (32-byte address
+    ++ 32-byte key), branching 4096 = Branches/2; every content below 2^63 - 262152 bytes *)
+Theorem C01_encrypted_at_source_constants :
+  forall (Hc Hk : bytes -> bytes) (keys : nat -> bytes) (pads : nat -> nat -> N),
+  (forall n, length (keys n) = EKey) -> (forall x, (EKey <= length (Hk x))%nat) -> (forall x, length (Hc x) = EHash) ->
+  forall segs : list bytes,
+  (len (concat segs) < 2 ^ 63 - 262152) ->
+  exists u, pupload (enc_stage Hc Hk EChunk ERefSize keys pads) (N.to_nat EChunk) (N.to_nat EBranches) (N.to_nat ERefSize) segs = Ok u
+    /\ u_rets u = seg_lens segs /\
+    (NoCollision Hc (u_log u) ->
+     let get := get_dec Hk EChunk ERefSize EHash (store_of_log Hc (u_log u)) in
+     exists j, joiner_new get (u_root u) = Some j /\ j_off j = 0
+               /\ stored get (Z.of_N EChunk) (Z.of_N ERefSize) j (concat segs)).
+Proof. exact (read_back_encrypted_at_source_constants consts_ok_C01_enc). Qed.
+Print Assumptions C01_encrypted_at_source_constants.
+
 (** non-vacuity: a toy run evaluated inside Coq (chunk size 4, 2-byte references,
     branching 2, 13 bytes in four writes, one of them empty): the hypotheses hold,
     the chunks written do not collide, and reading 6 bytes at offset 5 through the
@@ -82,5 +149,25 @@ Example C01_hyps_satisfiable :
          let '(n, ws, e) := read_at (get_of_store st) 4 2 j 6 6 5 in
          n = 6 /\ e = RNil /\ apply_writes (repeat 0%N 6) ws = [15;16;17;18;19;20]%N
      | None => False
+     end.
+Proof. vm_compute. repeat split; try reflexivity; try lia. Qed.
+
+(** non-vacuity, encrypted: chunk 8 = refsize 4 * branching 2 (2-byte address ++ 2-byte key),
+    13 bytes in three writes, keys and padding from toy oracles: the stored chunks do not
+    collide, and reading 6 bytes at offset 5 through the decrypting store returns them *)
+Definition ex_Hk (x : bytes) : bytes := [fold_left (fun a y => (a * 5 + y + 1) mod 256)%N x 9%N; N.of_nat (length x) mod 256; 77]%N.
+Definition ex_keys (n : nat) : bytes := [N.of_nat n * 3 + 1; 200 - N.of_nat n]%N.
+Definition ex_pads (n i : nat) : N := (N.of_nat (n * 7 + i) mod 256)%N.
+Example C01_encrypted_hyps_satisfiable :
+  let st := enc_stage ex_H ex_Hk 8 4 ex_keys ex_pads in
+  (forall x, length (ex_H x) = 2%nat) /\ (forall x, (2 <= length (ex_Hk x))%nat) /\ (forall n, length (ex_keys n) = 2%nat)
+  /\ match pupload st 8 2 4 ex_segs with
+     | Ok u => nocoll_b ex_H (u_log u) = true /\ length (u_root u) = 4%nat /\
+         match joiner_new (get_dec ex_Hk 8 4 2 (store_of_log ex_H (u_log u))) (u_root u) with
+         | Some j => let '(n, ws, e) := read_at (get_dec ex_Hk 8 4 2 (store_of_log ex_H (u_log u))) 8 4 j 6 6 5 in
+                     j_span j = 13 /\ n = 6 /\ e = RNil /\ apply_writes (repeat 0%N 6) ws = [15;16;17;18;19;20]%N
+         | None => False
+         end
+     | Err _ => False
      end.
 Proof. vm_compute. repeat split; try reflexivity; try lia. Qed.
